@@ -51,6 +51,17 @@ def run(ctx):
             t2.append({"cfg": {}, "ev": [e], "spec": [kind, n_, nc, frame, [f, t] if kind != "cover" else None, seed]})
         except Exception as ex:  # noqa
             ctx.violation("%s raised %s on random data: %s" % (kind, type(ex).__name__, ex), {"stage": "random", "error": repr(ex), "replay": None})
+    # frames in which several of the OTHER columns share one label (glued together with pd.concat(axis=1)): every column comes back, under its label
+    for i in range(24 if q else 160):
+        kind = KINDS[i % len(KINDS)]
+        n_, nc, seed = rng.randint(8, 40), rng.randint(4, 6), rng.randrange(10 ** 6)
+        f, t = sorted((rng.randint(0, n_ - 1), rng.randint(1, n_)))
+        st = rng.getstate()
+        try:
+            e = D.call(rng, kind, n_, nc, True, (f, max(t, f + 1)) if kind != "cover" else None, seed, style="dup")
+            t2.append({"cfg": {}, "ev": [e], "spec": [kind, n_, nc, True, [f, max(t, f + 1)] if kind != "cover" else None, seed, "dup"]})
+        except Exception as ex:  # noqa
+            ctx.violation("%s raised %s on a frame with repeated column labels: %s" % (kind, type(ex).__name__, ex), {"stage": "dup labels", "error": repr(ex), "replay": None})
     ctx.validate("Injector", t2, "random larger data sets", sabotage=D.sabotage, replay=rep(t2),
                  nontrivial=lambda t: t["ev"][0]["out"] != t["ev"][0]["in"])
     # one injector OBJECT serving several calls with alternating containers and shapes (state must not leak between calls)
@@ -82,8 +93,8 @@ def replay(ctx, bundle):
     if r["mode"] == "session":
         ctx.validate("Injector", [D.session(random.Random(r["seed"]), r["kind"], 5, r["seed"])], "replay", replay=lambda i: r)
     elif r["mode"] == "call":
-        kind, n_, nc, frame, w, seed = r["spec"]
-        e = D.call(rng, kind, n_, nc, frame, tuple(w) if w else None, seed)
+        kind, n_, nc, frame, w, seed = r["spec"][:6]
+        e = D.call(rng, kind, n_, nc, frame, tuple(w) if w else None, seed, style=(r["spec"][6] if len(r["spec"]) > 6 else None))
         ctx.validate("Injector", [{"cfg": {}, "ev": [e]}], "replay", replay=lambda i: r)
     else:
         ctx.validate("Injector", [D.freq_trace(rng, r["frame"], r["reps"], r["seed"], r.get("dirichlet", False))], "replay", replay=lambda i: r)
